@@ -21,7 +21,11 @@ var keyTokens = append(append([]string{}, gen.TokJSONKey...), "\a", "\v", "\x1b"
 
 func itemGen() *rapid.Generator[gen.Item] {
 	anyItem := gen.AnyItem(gen.TokJSONKey, 1)
+	long := gen.BoundaryString(gen.TokJSONKey)
 	return rapid.Custom(func(t *rapid.T) gen.Item {
+		if rapid.IntRange(0, 59).Draw(t, "long") == 0 {
+			return gen.S(long.Draw(t, "longv"))
+		}
 		switch rapid.IntRange(0, 19).Draw(t, "special") {
 		case 0:
 			return gen.Item{K: "chan"}
@@ -47,6 +51,9 @@ func caseGen() *rapid.Generator[Case] {
 		min := 1
 		if rapid.IntRange(0, 39).Draw(t, "empty-key") == 0 {
 			min = 0
+		}
+		if rapid.IntRange(0, 79).Draw(t, "long-key") == 0 {
+			return gen.S(gen.BoundaryString(keyTokens).Draw(t, "longkey"))
 		}
 		return gen.S(gen.StringOf(keyTokens, min, 2).Draw(t, "key"))
 	})
